@@ -230,7 +230,269 @@ def c12(ctx):
     return done(ctx)
 
 
-PROPS = {"C01": c01, "C02": c02, "C03": c03, "C04": c04, "C05": c05, "C06": c06, "C08": c08, "C10": c10, "C11": c11, "C12": c12}
+# --------------------------------------------------------------------------- C07
+def c07(ctx):
+    start(ctx)
+    rng = random.Random(ctx.seed)
+    n = tiers(ctx, 6000, 120000)
+    l32 = ["f32 %d" % p for p in gen.f32_patterns(rng, n)]
+    l64 = ["f64 %d" % p for p in gen.f64_patterns(rng, n)]
+    i32, _ = ctx.stream("load-store-f32", l32, nontrivial=lambda t: True)
+    i64, _ = ctx.stream("load-store-f64", l64, nontrivial=lambda t: True)
+    # direct oracle: storing back returns the identical bit pattern for every non-NaN value
+    for ln, im in zip(l32, i32):
+        b = int(ln.split()[1])
+        parts = im.split()
+        isnan = (b & 0x7f800000) == 0x7f800000 and (b & 0x7fffff) != 0
+        if len(parts) == 2 and not isnan and int(parts[1]) != b:
+            ctx.fail("oracle", "load-store-f32", ln, im, str(b), "f32 load/store round trip")
+        if len(parts) == 2 and isnan and not parts[0].startswith("X"):
+            ctx.fail("oracle", "load-store-f32", ln, im, "NaN", "NaN must load as NaN")
+    for ln, im in zip(l64, i64):
+        b = int(ln.split()[1])
+        parts = im.split()
+        isnan = (b & 0x7ff0000000000000) == 0x7ff0000000000000 and (b & 0xfffffffffffff) != 0
+        if len(parts) == 3 and not isnan and int(parts[1]) != b:
+            ctx.fail("oracle", "load-store-f64", ln, im, str(b), "f64 load/store round trip")
+    ctx.stream("native-ops", gen.nat_lines(rng, tiers(ctx, 8000, 150000)), spec_mode="native", nontrivial=lambda t: True, chunk_timeout=900)
+    ctx.stream("native-f64-to-f32", ["nat64 tof32 %d 0" % p for p in gen.f64_patterns(rng, n)], spec_mode="native", nontrivial=lambda t: True)
+    ctx.assumptions.append("that the host CPU implements IEEE-754 binary32/binary64 is validated by this run (native results are compared), not proved")
+    return done(ctx)
+
+
+# --------------------------------------------------------------------------- C09
+def c09(ctx):
+    start(ctx, profiles=("release", "dbg"))
+    rng = random.Random(ctx.seed)
+    lines = gen.big_lines(rng, tiers(ctx, 12000, 150000), maxlen=tiers(ctx, 12, 40), karatsuba=tiers(ctx, 60, 1500))
+    ctx.stream("big-ops", lines, nontrivial=lambda t: True, chunk_timeout=900)
+    ctx.stream("big-ops-dbg", lines[:: tiers(ctx, 6, 3)], profile="dbg", nontrivial=lambda t: True, chunk_timeout=900)
+    # long operands: hundreds of words
+    big = []
+    for _ in range(tiers(ctx, 60, 1200)):
+        la, lb = rng.randrange(1, 300), rng.randrange(1, 300)
+        av = sum(w << (64 * i) for i, w in enumerate(gen.rand_limbs(rng, la)))
+        bv = sum(w << (64 * i) for i, w in enumerate(gen.rand_limbs(rng, lb)))
+        op = rng.choice(["add", "sub", "mul", "div", "cmp", "dec"])
+        if op == "div" and bv == 0:
+            continue
+        if op == "dec":
+            big.append("big dec %x/%d" % (av, la))
+        else:
+            big.append("big %s %x/%d %x/%d" % (op, av, la, bv, lb))
+    ctx.stream("big-long", big, nontrivial=lambda t: True, chunk_timeout=900)
+    return done(ctx)
+
+
+# --------------------------------------------------------------------------- C13
+def c13(ctx):
+    from . import oracle
+    start(ctx)
+    rng = random.Random(ctx.seed)
+    small = tiers(ctx, gen.SMALL_QUICK, gen.SMALL_THOROUGH)
+    l1 = ["disp %s %s" % (Sem(E, P), a) for (E, P) in small for a in gen.all_values(Sem(E, P)) + ["X1:0:0"]]
+    l2 = gen.disp_lines_real(rng, tiers(ctx, 3000, 40000))
+    for name, lines, exh in (("exh-small", l1, True), ("real-wide", l2, False)):
+        impl, _ = ctx.stream(name, lines, exhaustive=exh, nontrivial=lambda t: t in ("frac", "int"), chunk_timeout=900)
+        for ln, im in zip(lines, impl):
+            if im in ("PANIC", "ABORT", "HANG"):
+                continue
+            _, st, tok = ln.split()
+            E, P, M = st.split(",")
+            why = oracle.check_display(Sem(int(E), int(P), M), tok, im)
+            if why:
+                ctx.fail("oracle", name, ln, im, "-", why)
+    return done(ctx)
+
+
+# --------------------------------------------------------------------------- C14
+def c14(ctx):
+    from . import oracle
+    start(ctx, profiles=("release", "dbg"))
+    rng = random.Random(ctx.seed)
+    lines = gen.parse_lines(rng, tiers(ctx, 6000, 120000))
+    impl, _ = ctx.stream("grammar+malformed", lines, nontrivial=lambda t: True, chunk_timeout=900)
+    ctx.stream("dbg", lines[:: tiers(ctx, 3, 2)], profile="dbg", nontrivial=lambda t: True, chunk_timeout=900)
+    kinds = {"err": 0, "ok": 0}
+    for ln, im in zip(lines, impl):
+        if im in ("PANIC", "ABORT", "HANG"):
+            continue
+        kinds["err" if im == "err" else "ok"] += 1
+        _, st, hx = ln.split()
+        E, P, M = st.split(",")
+        raw = b"" if hx == "-" else bytes.fromhex(hx)
+        why = oracle.check_parse(Sem(int(E), int(P), M), raw, im)
+        if why:
+            ctx.fail("oracle", "grammar+malformed", ln, im, "-", why + " (input %r)" % raw)
+    ctx.notes.append("input distribution: %s" % kinds)
+    return done(ctx)
+
+
+def _sem_of(st):
+    E, P, M = st.split(",")
+    return Sem(int(E), int(P), M)
+
+
+# --------------------------------------------------------------------------- C15
+def c15(ctx):
+    from . import oracle
+    start(ctx)
+    fm = tiers(ctx, gen.TRANS_FMTS_Q + [(12, 300)], gen.TRANS_FMTS_T)
+    lines = ["const %s %s" % (c, Sem(E, P, m)) for (E, P) in fm for m in MODES for c in ("pi", "e", "ln2")]
+    impl, _ = ctx.stream("constants", lines, nontrivial=lambda t: True, chunk_timeout=1200, per_line_timeout=tiers(ctx, 20, 120))
+    for ln, im in zip(lines, impl):
+        _, c, st = ln.split()
+        why = oracle.check_const(c, _sem_of(st), im)
+        if why:
+            ctx.fail("oracle", "constants", ln, im, "-", why)
+    ctx.assumptions.append("accuracy clause: searched with mpmath at 4x precision (no theorem); structural clauses: theorems")
+    return done(ctx)
+
+
+def _fn_check(ctx, names, stream):
+    from . import oracle
+    rng = random.Random(ctx.seed)
+    fm = tiers(ctx, gen.TRANS_FMTS_Q, gen.TRANS_FMTS_T)
+    lines = gen.fn_lines(rng, names, fm, tiers(ctx, 6, 40))
+    impl, _ = ctx.stream(stream, lines, nontrivial=lambda t: t == "n", chunk_timeout=1800, per_line_timeout=tiers(ctx, 20, 120))
+    for ln, im in zip(lines, impl):
+        _, name, st, tok = ln.split()
+        why = oracle.check_fn(name, _sem_of(st), tok, im)
+        if why:
+            ctx.fail("oracle", stream, ln, im, "-", why)
+    return lines, impl
+
+
+# --------------------------------------------------------------------------- C16
+def c16(ctx):
+    start(ctx)
+    _fn_check(ctx, ["exp", "log", "sigmoid"], "exp-log-sigmoid")
+    ctx.assumptions.append("accuracy clause: searched with mpmath at 4x precision (no theorem); special-operand clauses: theorems")
+    return done(ctx)
+
+
+# --------------------------------------------------------------------------- C17
+def c17(ctx):
+    from . import oracle
+    start(ctx)
+    lines, impl = _fn_check(ctx, ["sin", "cos", "tan"], "sin-cos-tan")
+    # exact symmetry: f(-x) against f(x)
+    sym = []
+    for ln in lines:
+        _, name, st, tok = ln.split()
+        if tok.startswith("N0") and st.split(",")[2] in ("E", "A"):
+            sym.append("fn %s %s N1%s" % (name, st, tok[2:]))
+    sym = sym[: tiers(ctx, 1500, 20000)]
+    pos = {ln: im for ln, im in zip(lines, impl)}
+    si, _ = ctx.stream("symmetry", sym, nontrivial=lambda t: True, chunk_timeout=1800, per_line_timeout=tiers(ctx, 20, 120))
+    for ln, im in zip(sym, si):
+        _, name, st, tok = ln.split()
+        p = pos.get("fn %s %s N0%s" % (name, st, tok[2:]))
+        if p and p not in ("PANIC", "ABORT", "HANG") and im not in ("PANIC", "ABORT", "HANG"):
+            why = oracle.check_symmetry(name, p, im)
+            if why:
+                ctx.fail("oracle", "symmetry", ln, im, p, why)
+    if ctx.tier == "thorough":
+        # all FP16 values (the property's exhaustive clause), nearest-even
+        s = Sem(5, 11, "E")
+        vals = gen.all_values(s)
+        ex = ["fn %s %s %s" % (nm, s, a) for nm in ("sin", "cos", "tan") for a in vals]
+        ei, _ = ctx.stream("fp16-exhaustive", ex, exhaustive=True, nontrivial=lambda t: t == "n", chunk_timeout=3600, per_line_timeout=60)
+        for ln, im in zip(ex, ei):
+            _, name, st, tok = ln.split()
+            why = oracle.check_fn(name, s, tok, im)
+            if why:
+                ctx.fail("oracle", "fp16-exhaustive", ln, im, "-", why)
+    ctx.assumptions.append("accuracy clause: searched with mpmath at 4x precision (no theorem); specials and exact symmetry: theorems")
+    return done(ctx)
+
+
+# --------------------------------------------------------------------------- C18
+def c18(ctx):
+    from . import oracle
+    start(ctx)
+    rng = random.Random(ctx.seed)
+    fm = tiers(ctx, gen.TRANS_FMTS_Q, gen.TRANS_FMTS_T)
+    lines = gen.pow_lines(rng, fm, tiers(ctx, 8, 50))
+    impl, _ = ctx.stream("pow-powi", lines, nontrivial=lambda t: t in ("n", "-"), chunk_timeout=1800, per_line_timeout=tiers(ctx, 20, 120))
+    for ln, im in zip(lines, impl):
+        t = ln.split()
+        if t[0] == "pow":
+            why = oracle.check_pow(_sem_of(t[1]), t[2], t[3], im)
+        else:
+            why = oracle.check_powi(_sem_of(t[1]), int(t[2]), t[3], im)
+        if why:
+            ctx.fail("oracle", "pow-powi", ln, im, "-", why)
+    ctx.assumptions.append("accuracy clause: powi checked against the exact rational power; pow searched with mpmath (no theorem); identities: theorems")
+    return done(ctx)
+
+
+# --------------------------------------------------------------------------- C19
+def c19(ctx):
+    """totality: every public operation x extreme values x wide-exponent formats x modes x both build profiles"""
+    start(ctx, profiles=("release", "dbg"))
+    rng = random.Random(ctx.seed)
+    fm = tiers(ctx, [(5, 11), (8, 24), (11, 53), (15, 64), (19, 237), (20, 30), (3, 3), (2, 2)], [(5, 11), (8, 8), (8, 24), (11, 53), (15, 64), (15, 113), (19, 237), (20, 30), (20, 64), (3, 3), (2, 2), (2, 3), (12, 300)])
+    lines = []
+    for (E, P) in fm:
+        for m in MODES:
+            s = Sem(E, P, m)
+            ext = [ftok("N", 0, s.emax, 2 ** P - 1), ftok("N", 1, s.emax, 2 ** P - 1), ftok("N", 0, s.emin, 1), ftok("N", 1, s.emin, 1),
+                   ftok("N", 0, s.emin, 2 ** (P - 1)), ftok("N", 0, 0, 2 ** (P - 1)), ftok("N", 1, 0, 2 ** (P - 1) + 1), ftok("N", 0, s.emax, 2 ** (P - 1)),
+                   ftok("N", 0, min(s.emax, 63), 2 ** (P - 1)), ftok("N", 0, min(s.emax, 64), 2 ** P - 1), ftok("N", 0, min(s.emax, P), 2 ** P - 1)] + gen.SPECIALS
+            for a in ext:
+                for op in ("trunc", "round", "abs", "neg", "sqrt", "toi64", "disp", "canon"):
+                    lines.append("%s %s %s" % (op, s, a))
+                for fn in ("exp", "log", "sigmoid", "sin", "cos", "tan", "sqr"):
+                    lines.append("fn %s %s %s" % (fn, s, a))
+                lines.append("powi %s %d %s" % (s, rng.choice([0, 1, 2, 3, 2 ** 63, 2 ** 64 - 1]), a))
+                lines.append("frac %s %d %s" % (s, rng.choice([0, 1, 2, 5, 16]), a))
+                lines.append("scale %s %s %d %s" % (s, m, rng.choice([2 ** 40 - 1, -(2 ** 40 - 1), s.emax - s.emin, s.emin - s.emax]), a))
+                for (E2, P2) in [(2, 2), (20, 64), (E, P + 1)]:
+                    lines.append("cast %s %s %s %s" % (s, Sem(E2, P2, "E"), m, a))
+                for b in ext[:6] + gen.SPECIALS[:3]:
+                    for op in ("add", "sub", "mul", "div"):
+                        lines.append("%s %s %s %s %s" % (op, s, m, a, b))
+                    lines.append("rem %s %s %s" % (s, a, b))
+                    lines.append("cmp %s %s %s" % (s, a, b))
+                    if rng.randrange(4) == 0:
+                        lines.append("pow %s %s %s" % (s, a, b))
+            for c in ("pi", "e", "ln2"):
+                lines.append("const %s %s" % (c, s))
+            for v in (0, 1, 2 ** 63, 2 ** 64 - 1):
+                lines.append("fromu64 %s %d" % (s, v))
+            for v in (0, -1, -2 ** 63, 2 ** 63 - 1):
+                lines.append("fromi64 %s %d" % (s, v))
+            lines.append("frombig %s %x" % (s, 2 ** 300 - 1))
+    rng.shuffle(lines)
+    if ctx.tier == "quick":
+        lines = lines[:9000]
+    tmo = tiers(ctx, 5.0, 30.0)
+    ctx.stream("extremes-release", lines, nontrivial=lambda t: True, chunk_timeout=900, per_line_timeout=tmo)
+    ctx.stream("extremes-dbg", lines, profile="dbg", nontrivial=lambda t: True, chunk_timeout=1800, per_line_timeout=tmo * 2)
+    ctx.assumptions.append("stack exhaustion, allocation failure and wall-clock time are runtime behaviour the model cannot exhibit: they are observed by the supervised harness (ABORT/HANG attributed to single lines); the fuel/termination theorems cover the logic")
+    return done(ctx)
+
+
+# --------------------------------------------------------------------------- C20
+def c20(ctx):
+    from . import oracle
+    start(ctx)
+    rng = random.Random(ctx.seed)
+    lines = gen.frac_lines(rng, tiers(ctx, 4000, 60000))
+    small = [(3, 3), (3, 4), (4, 3)]
+    lines += ["frac %s %d %s" % (Sem(E, P), n, a) for (E, P) in small for n in range(0, 7) for a in gen.all_values(Sem(E, P))]
+    impl, _ = ctx.stream("as-fraction", lines, nontrivial=lambda t: t == "n", chunk_timeout=900)
+    for ln, im in zip(lines, impl):
+        _, st, n, tok = ln.split()
+        why = oracle.check_frac(_sem_of(st), int(n), tok, im)
+        if why:
+            ctx.fail("oracle", "as-fraction", ln, im, "-", why)
+    return done(ctx)
+
+
+PROPS = {"C01": c01, "C02": c02, "C03": c03, "C04": c04, "C05": c05, "C06": c06, "C07": c07, "C08": c08, "C09": c09, "C10": c10,
+         "C11": c11, "C12": c12, "C13": c13, "C14": c14, "C15": c15, "C16": c16, "C17": c17, "C18": c18, "C19": c19, "C20": c20}
 
 
 def replay(ctx, path):
